@@ -522,4 +522,254 @@ theorem fk5_theta_small {T t : ℝ} (hT : |T| ≤ 5) (ht : |t| ≤ 10) : |fk5_th
     rw [abs_le]; constructor <;> norm_num at b2 b4 ⊢ <;> linarith
   have := abs_mul_le ht a5
   linarith
+/-! ### the orbit pole precesses like an ecliptical direction -/
+
+/-- Unit vector normal to an orbit with ascending node `node` and inclination `inc` (degrees). -/
+def orbitPole (node inc : ℝ) : V3 :=
+  (sin (rad inc) * sin (rad node), -(sin (rad inc) * cos (rad node)), cos (rad inc))
+
+theorem cos_rad_a_add (x y : ℝ) : cos (rad (a_add x y)) = cos (rad x + rad y) := by
+  unfold a_add; rw [cos_rad_reduce, rad_add]
+theorem sin_rad_a_add (x y : ℝ) : sin (rad (a_add x y)) = sin (rad x + rad y) := by
+  unfold a_add; rw [sin_rad_reduce, rad_add]
+
+/-- The node and inclination `orbital_equinox2equinox` forms from `a`, `b`, `c` give the old orbit pole turned by
+    the ecliptical precession rotation (the one of `ecl_core_spec`). -/
+theorem orb_pole_core (i0 lon0 eta pie p a b c : ℝ)
+    (ha : a = sin (rad i0) * sin (rad lon0 - rad pie))
+    (hb : b = -sin (rad eta) * cos (rad i0) + cos (rad eta) * sin (rad i0) * cos (rad lon0 - rad pie))
+    (hc : c = cos (rad i0) * cos (rad eta) + sin (rad i0) * sin (rad eta) * cos (rad lon0 - rad pie)) :
+    orbitPole (a_add (a_add (a_of_rad (patan2 a b)) pie) p) (a_of_rad (patan2 (psqrt (a * a + b * b)) c))
+      = flipZ (rad p + rad pie) (rotX (-(rad eta)) (flipZ (rad pie) (orbitPole lon0 i0))) := by
+  have hu : a ^ 2 + b ^ 2 + c ^ 2 = 1 := by
+    rw [ha, hb, hc]
+    linear_combination (cos (rad i0) ^ 2 + sin (rad i0) ^ 2 * cos (rad lon0 - rad pie) ^ 2) * sin_sq_add_cos_sq (rad eta)
+      + sin (rad i0) ^ 2 * sin_sq_add_cos_sq (rad lon0 - rad pie) + sin_sq_add_cos_sq (rad i0)
+  unfold psqrt
+  set r := √(a * a + b * b) with hr
+  have hr2 : r * r = a * a + b * b := mul_self_sqrt (add_nonneg (mul_self_nonneg a) (mul_self_nonneg b))
+  have hn : ‖(⟨c, r⟩ : ℂ)‖ = 1 := by
+    rw [Complex.norm_def, Complex.normSq_mk, show c * c + r * r = 1 by nlinarith]; exact sqrt_one
+  have hne : (⟨c, r⟩ : ℂ) ≠ 0 := by
+    intro h0; rw [h0, norm_zero] at hn; exact zero_ne_one hn
+  have hsi : sin (patan2 r c) = r := by unfold patan2; rw [Complex.sin_arg, hn]; simp
+  have hci : cos (patan2 r c) = c := by unfold patan2; rw [Complex.cos_arg hne, hn]; simp
+  obtain ⟨k1, k2⟩ := Lemmas.Sphere.norm_mul_cos_sin_arg b a
+  have hrr : √(b ^ 2 + a ^ 2) = r := by rw [hr]; congr 1; ring
+  rw [hrr] at k1 k2
+  have k1' : r * cos (patan2 a b) = b := k1
+  have k2' : r * sin (patan2 a b) = a := k2
+  unfold orbitPole
+  simp only [cos_rad_of_rad, sin_rad_of_rad, cos_rad_a_add, sin_rad_a_add, sin_add, cos_add, hsi, hci]
+  generalize patan2 a b = ψ at k1' k2' ⊢
+  -- the right-hand side is flipZ (p + Π) (a, b, c)
+  have hmid : rotX (-(rad eta)) (flipZ (rad pie)
+      (sin (rad i0) * sin (rad lon0), -(sin (rad i0) * cos (rad lon0)), cos (rad i0))) = (a, b, c) := by
+    unfold rotX flipZ
+    simp only [cos_neg, sin_neg]
+    rw [ha, hb, hc, sin_sub, cos_sub]
+    ext <;> simp only <;> ring
+  rw [hmid]
+  unfold flipZ
+  simp only [sin_add, cos_add]
+  ext
+  · simp only
+    linear_combination (cos (rad pie) * cos (rad p) - sin (rad pie) * sin (rad p)) * k2'
+      + (sin (rad pie) * cos (rad p) + cos (rad pie) * sin (rad p)) * k1'
+  · simp only
+    linear_combination (sin (rad pie) * cos (rad p) + cos (rad pie) * sin (rad p)) * k2'
+      - (cos (rad pie) * cos (rad p) - sin (rad pie) * sin (rad p)) * k1'
+  · rfl
+theorem orbital_pole_spec (e0 e1 i0 arg0 lon0 : ℝ) :
+    ∃ i1 arg1 lon1, orbital_equinox2equinox e0 e1 i0 arg0 lon0 = .ok (i1, arg1, lon1) ∧
+      orbitPole lon1 i1 =
+        flipZ (rad (a_of_sec (ecl_p ((e0 - 2451545.0) / 36525.0) ((e1 - e0) / 36525.0)))
+               + rad (a_add (a_of_sec (ecl_pie ((e0 - 2451545.0) / 36525.0) ((e1 - e0) / 36525.0))) 174.876384))
+          (rotX (-(rad (a_of_sec (ecl_eta ((e0 - 2451545.0) / 36525.0) ((e1 - e0) / 36525.0)))))
+            (flipZ (rad (a_add (a_of_sec (ecl_pie ((e0 - 2451545.0) / 36525.0) ((e1 - e0) / 36525.0))) 174.876384))
+              (orbitPole lon0 i0))) := by
+  unfold orbital_equinox2equinox
+  simp only [pure, Except.pure]
+  exact ⟨_, _, _, rfl, orb_pole_core i0 lon0 _ _ _ _ _ _ rfl rfl rfl⟩
+
+/-! ### `mean_obliquity`: Laskar's polynomial -/
+
+/-- Laskar's correction in arcseconds, written term by term (Meeus 22.3), `U` in units of 10000 Julian years. -/
+def laskar (U : ℝ) : ℝ :=
+  -4680.93 * U - 1.55 * U ^ 2 + 1999.25 * U ^ 3 - 51.38 * U ^ 4 - 249.67 * U ^ 5 - 39.05 * U ^ 6
+    + 7.12 * U ^ 7 + 27.87 * U ^ 8 + 5.79 * U ^ 9 + 2.45 * U ^ 10
+
+theorem laskar_horner (u : ℝ) :
+    u * (-4680.93 + u * (-1.55 + u * (1999.25 + u * (-51.38 + u * (-249.67
+      + u * (-39.05 + u * (7.12 + u * (27.87 + u * (5.79 + u * 2.45))))))))) = laskar u := by
+  unfold laskar; ring
+
+theorem laskar_small {u : ℝ} (hu : |u| ≤ 1) : |laskar u| ≤ 7070 := by
+  rw [← laskar_horner]
+  have h := abs_le.mp hu
+  have b10 : |(5.79 : ℝ) + u * 2.45| ≤ 9 := by rw [abs_le]; constructor <;> norm_num <;> linarith [h.1, h.2]
+  have b9 := abs_mul_le hu b10
+  have c9 : |(27.87 : ℝ) + u * (5.79 + u * 2.45)| ≤ 37 := by
+    have := abs_le.mp b9; rw [abs_le]; constructor <;> norm_num at this ⊢ <;> linarith [this.1, this.2]
+  have b8 := abs_mul_le hu c9
+  have c8 : |(7.12 : ℝ) + u * (27.87 + u * (5.79 + u * 2.45))| ≤ 45 := by
+    have := abs_le.mp b8; rw [abs_le]; constructor <;> norm_num at this ⊢ <;> linarith [this.1, this.2]
+  have b7 := abs_mul_le hu c8
+  have c7 : |(-39.05 : ℝ) + u * (7.12 + u * (27.87 + u * (5.79 + u * 2.45)))| ≤ 85 := by
+    have := abs_le.mp b7; rw [abs_le]; constructor <;> norm_num at this ⊢ <;> linarith [this.1, this.2]
+  have b6 := abs_mul_le hu c7
+  have c6 : |(-249.67 : ℝ) + u * (-39.05 + u * (7.12 + u * (27.87 + u * (5.79 + u * 2.45))))| ≤ 335 := by
+    have := abs_le.mp b6; rw [abs_le]; constructor <;> norm_num at this ⊢ <;> linarith [this.1, this.2]
+  have b5 := abs_mul_le hu c6
+  have c5 : |(-51.38 : ℝ) + u * (-249.67 + u * (-39.05 + u * (7.12 + u * (27.87 + u * (5.79 + u * 2.45)))))| ≤ 387 := by
+    have := abs_le.mp b5; rw [abs_le]; constructor <;> norm_num at this ⊢ <;> linarith [this.1, this.2]
+  have b4 := abs_mul_le hu c5
+  have c4 : |(1999.25 : ℝ) + u * (-51.38 + u * (-249.67 + u * (-39.05 + u * (7.12 + u * (27.87 + u * (5.79 + u * 2.45))))))| ≤ 2387 := by
+    have := abs_le.mp b4; rw [abs_le]; constructor <;> norm_num at this ⊢ <;> linarith [this.1, this.2]
+  have b3 := abs_mul_le hu c4
+  have c3 : |(-1.55 : ℝ) + u * (1999.25 + u * (-51.38 + u * (-249.67 + u * (-39.05 + u * (7.12 + u * (27.87 + u * (5.79 + u * 2.45)))))))| ≤ 2389 := by
+    have := abs_le.mp b3; rw [abs_le]; constructor <;> norm_num at this ⊢ <;> linarith [this.1, this.2]
+  have b2 := abs_mul_le hu c3
+  have c2 : |(-4680.93 : ℝ) + u * (-1.55 + u * (1999.25 + u * (-51.38 + u * (-249.67 + u * (-39.05 + u * (7.12 + u * (27.87 + u * (5.79 + u * 2.45))))))))| ≤ 7070 := by
+    have := abs_le.mp b2; rw [abs_le]; constructor <;> norm_num at this ⊢ <;> linarith [this.1, this.2]
+  have b1 := abs_mul_le hu c2
+  linarith
+
+/-- Within 10000 years of J2000 `mean_obliquity` is exactly 23°26'21.448" plus Laskar's polynomial (arcseconds / 3600):
+    no reduction of the Angle arithmetic interferes. -/
+theorem mean_obliquity_spec (jde : ℝ) (h : |jde - 2451545| ≤ 3652500) :
+    mean_obliquity jde = 23 + 26 / 60 + 21.448 / 3600 + laskar ((jde - 2451545) / 3652500) / 3600 := by
+  have e1 : (2451545.0 : ℝ) = 2451545 := by norm_num
+  have e2 : (3652500.0 : ℝ) = 3652500 := by norm_num
+  have hu : |(jde - 2451545) / 3652500| ≤ 1 := by
+    rw [abs_div, abs_of_pos (by norm_num : (0 : ℝ) < 3652500), div_le_one (by norm_num)]; exact h
+  have hl := laskar_small hu
+  unfold mean_obliquity
+  simp only [e1, e2, laskar_horner]
+  rw [a_of_sec_exact (lt_of_le_of_lt hl (by norm_num))]
+  have hl' := abs_le.mp hl
+  have heps : a_reduce (1.0 * (23.0 + 26.0 / 60.0 + 21.448 / 3600.0)) = 23 + 26 / 60 + 21.448 / 3600 := by
+    rw [a_reduce_of_lt]
+    · norm_num
+    · rw [abs_lt]; constructor <;> norm_num
+  rw [heps]
+  unfold a_add
+  apply a_reduce_of_lt
+  rw [abs_lt]; constructor <;> norm_num <;> linarith [hl'.1, hl'.2]
+
+/-! ### the perihelion direction precesses like an ecliptical direction -/
+
+/-- Unit vector towards the perihelion of an orbit with node `node`, inclination `inc`, argument of perihelion `arg`. -/
+def orbitPeri (node inc arg : ℝ) : V3 :=
+  (cos (rad arg) * cos (rad node) - sin (rad arg) * cos (rad inc) * sin (rad node),
+   cos (rad arg) * sin (rad node) + sin (rad arg) * cos (rad inc) * cos (rad node),
+   sin (rad arg) * sin (rad inc))
+
+theorem orb_peri_core (i0 lon0 arg0 eta pie p a b c X Y : ℝ)
+    (ha : a = sin (rad i0) * sin (rad lon0 - rad pie))
+    (hb : b = -sin (rad eta) * cos (rad i0) + cos (rad eta) * sin (rad i0) * cos (rad lon0 - rad pie))
+    (hc : c = cos (rad i0) * cos (rad eta) + sin (rad i0) * sin (rad eta) * cos (rad lon0 - rad pie))
+    (hX : X = sin (rad i0) * cos (rad eta) - cos (rad i0) * sin (rad eta) * cos (rad lon0 - rad pie))
+    (hY : Y = -sin (rad eta) * sin (rad lon0 - rad pie))
+    (hne : a * a + b * b ≠ 0) :
+    orbitPeri (a_add (a_add (a_of_rad (patan2 a b)) pie) p) (a_of_rad (patan2 (psqrt (a * a + b * b)) c))
+        (a_add arg0 (a_of_rad (patan2 Y X)))
+      = flipZ (rad p + rad pie) (rotX (-(rad eta)) (flipZ (rad pie) (orbitPeri lon0 i0 arg0))) := by
+  -- polynomial identities between a, b, c, X, Y (coefficients found by reducing modulo sin² + cos² = 1)
+  have I1 : (a * a + b * b) * cos (rad lon0 - rad pie) = X * b - Y * c * a := by
+    rw [ha, hb, hc, hX, hY]
+    linear_combination (0) * sin_sq_add_cos_sq (rad i0) + (sin (rad i0) ^ 2 * cos (rad lon0 - rad pie) ^ 3 + (-1) * sin (rad i0) ^ 2 * cos (rad lon0 - rad pie)) * sin_sq_add_cos_sq (rad eta) + ((-1) * sin (rad i0) * cos (rad i0) * sin (rad eta) * cos (rad eta) + (-1) * sin (rad i0) ^ 2 * cos (rad lon0 - rad pie) * sin (rad eta) ^ 2 + sin (rad i0) ^ 2 * cos (rad lon0 - rad pie)) * sin_sq_add_cos_sq (rad lon0 - rad pie)
+  have I2 : (a * a + b * b) * (-sin (rad lon0 - rad pie) * cos (rad eta)) = X * (-a) - Y * c * b := by
+    rw [ha, hb, hc, hX, hY]
+    linear_combination (0) * sin_sq_add_cos_sq (rad i0) + (sin (rad i0) * cos (rad i0) * cos (rad lon0 - rad pie) * sin (rad eta) * sin (rad lon0 - rad pie) + (-1) * sin (rad i0) ^ 2 * cos (rad lon0 - rad pie) ^ 2 * cos (rad eta) * sin (rad lon0 - rad pie)) * sin_sq_add_cos_sq (rad eta) + ((-1) * sin (rad i0) ^ 2 * cos (rad eta) * sin (rad lon0 - rad pie)) * sin_sq_add_cos_sq (rad lon0 - rad pie)
+  have J1 : (a * a + b * b) * (-cos (rad i0) * sin (rad lon0 - rad pie)) = X * (-c * a) - Y * b := by
+    rw [ha, hb, hc, hX, hY]
+    linear_combination ((-1) * cos (rad i0) * sin (rad eta) ^ 2 * sin (rad lon0 - rad pie) + sin (rad i0) * cos (rad lon0 - rad pie) * sin (rad eta) * cos (rad eta) * sin (rad lon0 - rad pie)) * sin_sq_add_cos_sq (rad i0) + ((-1) * sin (rad i0) ^ 2 * cos (rad i0) * cos (rad lon0 - rad pie) ^ 2 * sin (rad lon0 - rad pie) + sin (rad i0) ^ 2 * cos (rad i0) * sin (rad lon0 - rad pie)) * sin_sq_add_cos_sq (rad eta) + ((-1) * sin (rad i0) ^ 2 * cos (rad i0) * sin (rad lon0 - rad pie)) * sin_sq_add_cos_sq (rad lon0 - rad pie)
+  have J2 : (a * a + b * b) * (-cos (rad i0) * cos (rad lon0 - rad pie) * cos (rad eta) - sin (rad i0) * sin (rad eta))
+      = X * (-c * b) + Y * a := by
+    rw [ha, hb, hc, hX, hY]
+    linear_combination ((-1) * sin (rad i0) * sin (rad eta) ^ 3 + sin (rad i0) * cos (rad lon0 - rad pie) ^ 2 * sin (rad eta) * cos (rad eta) ^ 2 + (-1) * sin (rad i0) * sin (rad eta) * cos (rad eta) ^ 2 + sin (rad i0) * cos (rad lon0 - rad pie) ^ 2 * sin (rad eta) ^ 3) * sin_sq_add_cos_sq (rad i0) + ((-1) * sin (rad i0) ^ 2 * cos (rad i0) * cos (rad lon0 - rad pie) ^ 3 * cos (rad eta) + sin (rad i0) ^ 2 * cos (rad i0) * cos (rad lon0 - rad pie) * cos (rad eta) + (-1) * sin (rad i0) ^ 3 * cos (rad lon0 - rad pie) ^ 2 * sin (rad eta) + sin (rad i0) * cos (rad lon0 - rad pie) ^ 2 * sin (rad eta) + sin (rad i0) ^ 3 * sin (rad eta) + (-1) * sin (rad i0) * sin (rad eta)) * sin_sq_add_cos_sq (rad eta) + ((-1) * sin (rad i0) ^ 2 * cos (rad i0) * cos (rad lon0 - rad pie) * cos (rad eta) + (-1) * sin (rad i0) ^ 3 * sin (rad eta) + sin (rad i0) * sin (rad eta)) * sin_sq_add_cos_sq (rad lon0 - rad pie)
+  have hN : X * X + Y * Y = a * a + b * b := by
+    rw [ha, hb, hX, hY]
+    linear_combination (cos (rad lon0 - rad pie) ^ 2 * sin (rad eta) ^ 2 + (-1) * sin (rad eta) ^ 2) * sin_sq_add_cos_sq (rad i0) + (sin (rad i0) ^ 2 + (-1) * sin (rad i0) ^ 2 * cos (rad lon0 - rad pie) ^ 2) * sin_sq_add_cos_sq (rad eta) + (sin (rad eta) ^ 2 + (-1) * sin (rad i0) ^ 2) * sin_sq_add_cos_sq (rad lon0 - rad pie)
+  have hu : a ^ 2 + b ^ 2 + c ^ 2 = 1 := by
+    rw [ha, hb, hc]
+    linear_combination (cos (rad i0) ^ 2 + sin (rad i0) ^ 2 * cos (rad lon0 - rad pie) ^ 2) * sin_sq_add_cos_sq (rad eta)
+      + sin (rad i0) ^ 2 * sin_sq_add_cos_sq (rad lon0 - rad pie) + sin_sq_add_cos_sq (rad i0)
+  have hJ3 : -cos (rad i0) * cos (rad lon0 - rad pie) * sin (rad eta) + sin (rad i0) * cos (rad eta) = X := by rw [hX]; ring
+  have hI3 : -sin (rad lon0 - rad pie) * sin (rad eta) = Y := by rw [hY]; ring
+  unfold psqrt
+  set r := √(a * a + b * b) with hr
+  have hr2 : r * r = a * a + b * b := mul_self_sqrt (add_nonneg (mul_self_nonneg a) (mul_self_nonneg b))
+  have hrr0 : r * r ≠ 0 := by rw [hr2]; exact hne
+  have hn : ‖(⟨c, r⟩ : ℂ)‖ = 1 := by
+    rw [Complex.norm_def, Complex.normSq_mk, show c * c + r * r = 1 by nlinarith]; exact sqrt_one
+  have hne' : (⟨c, r⟩ : ℂ) ≠ 0 := by
+    intro h0; rw [h0, norm_zero] at hn; exact zero_ne_one hn
+  have hsi : sin (patan2 r c) = r := by unfold patan2; rw [Complex.sin_arg, hn]; simp
+  have hci : cos (patan2 r c) = c := by unfold patan2; rw [Complex.cos_arg hne', hn]; simp
+  obtain ⟨k1, k2⟩ := Lemmas.Sphere.norm_mul_cos_sin_arg b a
+  have hrr : √(b ^ 2 + a ^ 2) = r := by rw [hr]; congr 1; ring
+  rw [hrr] at k1 k2
+  obtain ⟨m1, m2⟩ := Lemmas.Sphere.norm_mul_cos_sin_arg X Y
+  have hrX : √(X ^ 2 + Y ^ 2) = r := by rw [hr]; congr 1; rw [← hN]; ring
+  rw [hrX] at m1 m2
+  have k1' : r * cos (patan2 a b) = b := k1
+  have k2' : r * sin (patan2 a b) = a := k2
+  have m1' : r * cos (patan2 Y X) = X := m1
+  have m2' : r * sin (patan2 Y X) = Y := m2
+  -- the middle vector: cos ω0 · w + sin ω0 · wM
+  have hmid : rotX (-(rad eta)) (flipZ (rad pie) (orbitPeri lon0 i0 arg0)) =
+      (cos (rad arg0) * cos (rad lon0 - rad pie) + sin (rad arg0) * (-cos (rad i0) * sin (rad lon0 - rad pie)),
+       cos (rad arg0) * (-sin (rad lon0 - rad pie) * cos (rad eta))
+         + sin (rad arg0) * (-cos (rad i0) * cos (rad lon0 - rad pie) * cos (rad eta) - sin (rad i0) * sin (rad eta)),
+       cos (rad arg0) * (-sin (rad lon0 - rad pie) * sin (rad eta))
+         + sin (rad arg0) * (-cos (rad i0) * cos (rad lon0 - rad pie) * sin (rad eta) + sin (rad i0) * cos (rad eta))) := by
+    unfold rotX flipZ orbitPeri
+    simp only [cos_neg, sin_neg, sin_sub, cos_sub]
+    ext <;> simp only <;> ring
+  rw [hmid, hJ3, hI3]
+  unfold orbitPeri
+  simp only [cos_rad_of_rad, sin_rad_of_rad, cos_rad_a_add, sin_rad_a_add, hsi, hci]
+  generalize patan2 a b = ψ at k1' k2' ⊢
+  generalize patan2 Y X = w at m1' m2' ⊢
+  have hψ := sin_sq_add_cos_sq ψ
+  rw [← k1', ← k2', ← m1', ← m2'] at I1 I2 J1 J2
+  -- the six components of  w = cw N' + sw M',  wM = cw M' - sw N'
+  have W1 : cos (rad lon0 - rad pie) = cos w * cos ψ - sin w * c * sin ψ := by
+    apply mul_left_cancel₀ hrr0; linear_combination I1 - (r * r * cos (rad lon0 - rad pie)) * hψ
+  have W2 : -sin (rad lon0 - rad pie) * cos (rad eta) = -(cos w * sin ψ) - sin w * c * cos ψ := by
+    apply mul_left_cancel₀ hrr0; linear_combination I2 - (r * r * (-sin (rad lon0 - rad pie) * cos (rad eta))) * hψ
+  have V1 : -cos (rad i0) * sin (rad lon0 - rad pie) = -(cos w * c * sin ψ) - sin w * cos ψ := by
+    apply mul_left_cancel₀ hrr0; linear_combination J1 - (r * r * (-cos (rad i0) * sin (rad lon0 - rad pie))) * hψ
+  have V2 : -cos (rad i0) * cos (rad lon0 - rad pie) * cos (rad eta) - sin (rad i0) * sin (rad eta)
+      = -(cos w * c * cos ψ) + sin w * sin ψ := by
+    apply mul_left_cancel₀ hrr0
+    linear_combination J2 - (r * r * (-cos (rad i0) * cos (rad lon0 - rad pie) * cos (rad eta) - sin (rad i0) * sin (rad eta))) * hψ
+  rw [V2, V1, W2, W1, ← m1', ← m2']
+  unfold flipZ
+  simp only [sin_add, cos_add, cos_rad_of_rad, sin_rad_of_rad, cos_rad_a_add, sin_rad_a_add]
+  ext <;> simp only <;> ring
+
+
+theorem orbital_peri_spec (e0 e1 i0 arg0 lon0 i1 arg1 lon1 : ℝ)
+    (h : orbital_equinox2equinox e0 e1 i0 arg0 lon0 = .ok (i1, arg1, lon1)) (hi : sin (rad i1) ≠ 0) :
+    orbitPeri lon1 i1 arg1 =
+      flipZ (rad (a_of_sec (ecl_p ((e0 - 2451545.0) / 36525.0) ((e1 - e0) / 36525.0)))
+             + rad (a_add (a_of_sec (ecl_pie ((e0 - 2451545.0) / 36525.0) ((e1 - e0) / 36525.0))) 174.876384))
+        (rotX (-(rad (a_of_sec (ecl_eta ((e0 - 2451545.0) / 36525.0) ((e1 - e0) / 36525.0)))))
+          (flipZ (rad (a_add (a_of_sec (ecl_pie ((e0 - 2451545.0) / 36525.0) ((e1 - e0) / 36525.0))) 174.876384))
+            (orbitPeri lon0 i0 arg0))) := by
+  unfold orbital_equinox2equinox at h
+  simp only [pure, Except.pure] at h
+  injection h with h; injection h with h1 h; injection h with h2 h3
+  subst h1 h2 h3
+  apply orb_peri_core i0 lon0 arg0 _ _ _ _ _ _ _ _ rfl rfl rfl rfl rfl
+  intro h0
+  apply hi
+  rw [sin_rad_of_rad]
+  have key : ∀ x c : ℝ, x = 0 → sin (patan2 (psqrt x) c) = 0 := by
+    intro x c hx; subst hx; unfold psqrt patan2; rw [sqrt_zero, Complex.sin_arg]; simp
+  exact key _ _ h0
+
 end Pymeeus.Refine.Coords
